@@ -215,7 +215,7 @@ def _children(o):
     return sorted(o.eContents, key=lambda c: c.eContainmentFeature().name)
 
 
-def _check_resolution(res, objs, label, only=None, ids=False):
+def _check_resolution(res, objs, label, only=None, ids=False, idtext=None):
     """objs: the reachable objects the property talks about.  Returns (resolutions done, None | (clause, text))"""
     frags, seen = {}, {}
     for o in objs:
@@ -235,6 +235,8 @@ def _check_resolution(res, objs, label, only=None, ids=False):
         keys = [('fragment', frag)] + ([('fragment', frag[1:])] if frag.startswith('#') else [])
         if ids and getattr(o, '_internal_id', None):
             keys.append(('id', o._internal_id))
+        if idtext is not None and idtext(o) is not None:
+            keys.append(('id', idtext(o)))       # the text form of the object's id attribute
         for what, key in keys:
             n += 1
             try:
@@ -248,10 +250,13 @@ def _check_resolution(res, objs, label, only=None, ids=False):
 
 # ---- 1. load, then edit ----------------------------------------------------
 
-def _lte_metamodel(E):
-    pack = E.EPackage('lte', nsURI='http://verif/c11/load-then-edit', nsPrefix='lte')
+def _lte_metamodel(E, idmode=None):
+    """idmode 'str' / 'int': Node has an id attribute `key` (iD=True) of type EString / EInt, inherited by Leaf"""
+    pack = E.EPackage('lte', nsURI=f'http://verif/c11/load-then-edit/{idmode}', nsPrefix='lte')
     Node = E.EClass('Node')
     Leaf = E.EClass('Leaf', superclass=(Node,))
+    if idmode:
+        Node.eStructuralFeatures.append(E.EAttribute('key', E.EString if idmode == 'str' else E.EInt, iD=True))
     Node.eStructuralFeatures.extend([
         E.EAttribute('name', E.EString),
         E.EReference('children', Node, upper=-1, containment=True),
@@ -278,15 +283,17 @@ def load_edit_scenarios(ctx, out):
     from pyecore.resources import ResourceSet, URI
     from pyecore.resources.json import JsonResource
     rng = common.rng_for(ctx.seed, 'C11:load_edit')
-    pack, Node, Leaf = _lte_metamodel(E)
+    metamodels = {m: _lte_metamodel(E, m) for m in (None, 'str', 'int')}
     n_models = 500 if ctx.tier != 'thorough' else 6000
     cov = {'loads': 0, 'edits': 0, 'resolutions': 0, 'moves_between_parents': 0, 'root_edits': 0,
-           'documents_with_positional_refs': 0, 'abandoned': 0, 'by_format': {}}
+           'documents_with_positional_refs': 0, 'abandoned': 0, 'by_format': {}, 'by_id_attribute': {},
+           'id_attribute_resolutions': 0, 'roots_with_id': 0, 'int_ids_equal_to_0': 0, 'references_compared_after_load': 0}
     samples = []
 
     def new_rs():
         rs = ResourceSet()
-        rs.metamodel_registry[pack.nsURI] = pack
+        for pk, _, _ in metamodels.values():
+            rs.metamodel_registry[pk.nsURI] = pk
         rs.resource_factory['json'] = lambda uri: JsonResource(uri)
         return rs
 
@@ -308,6 +315,10 @@ def load_edit_scenarios(ctx, out):
     with tempfile.TemporaryDirectory() as td:
         for it in range(n_models):
             fmt = rng.choice(LTE_FORMATS)
+            # id attributes (EString / EInt, also the int 0) on roots and nested objects: the references to an object
+            # with a SET id are written as the id's text, the others stay positional
+            idmode = rng.choice([None, None, None, 'str', 'int', 'int'])
+            pack, Node, Leaf = metamodels[idmode]
             nroots = rng.choice([1, 1, 1, 2, 2, 3])
             nobj = rng.randrange(nroots + 1, 13)
             objs = []
@@ -330,6 +341,17 @@ def load_edit_scenarios(ctx, out):
                     else:
                         objs[0].children.append(o)
                 objs.append(o)
+            idtexts = {}                     # object name -> text form of its id
+            if idmode:
+                pool = rng.sample([1, 2, 7, 10, 13, 42, 100, 255, 1000, -3, -1, 65536, 99, 5, 6, 8, 9], nobj)   # distinct
+                if rng.random() < 0.6:
+                    pool[rng.randrange(nobj) if rng.random() < 0.5 else 0] = 0       # the default value of EInt, set
+                for i, o in enumerate(objs):
+                    if rng.random() < (0.85 if i < nroots else 0.65):
+                        o.key = pool[i] if idmode == 'int' else rng.choice([f'k{pool[i]}', str(pool[i]), f'id.{pool[i]}_x'])
+                        idtexts[o.name] = str(o.key)
+                        cov['roots_with_id'] += i < nroots
+                        cov['int_ids_equal_to_0'] += idmode == 'int' and o.key == 0
             nref = 0
             for o in objs:
                 if rng.random() < 0.6:
@@ -347,27 +369,39 @@ def load_edit_scenarios(ctx, out):
                 res.append(o)
             dump = [[o.name, o.eClass.name, o.eContainer().name if o.eContainer() else None,
                      o.eContainmentFeature().name if o.eContainer() else None,
-                     o.fav.name if o.fav else None, [t.name for t in o.links]] for o in objs]
-            hist = [['model', fmt, nroots, dump]]
-            res.save()
-            rs2 = new_rs()
-            r2 = rs2.get_resource(URI(path))
-            os.unlink(path)
-            cov['loads'] += 1
-            cov['by_format'][fmt] = cov['by_format'].get(fmt, 0) + 1
-            if nref and not fmt.endswith('uuid'):
-                cov['documents_with_positional_refs'] += 1
-            known = _reach(r2)              # every object the history may use (also detached ones, later)
-            fresh = [0]
-            sig = {'property': PID, 'clause': None, 'scenario': 'load-then-edit', 'format': fmt}
+                     o.fav.name if o.fav else None, [t.name for t in o.links], idtexts.get(o.name)] for o in objs]
+            hist = [['model', fmt, nroots, idmode, dump]]
+            sig = {'property': PID, 'clause': None, 'scenario': 'load-then-edit', 'format': fmt, 'id_attribute': idmode}
 
             def case():
                 return {'scenario': 'load_edit', 'seed': ctx.seed, 'tier': ctx.tier, 'format': fmt, 'roots': nroots,
-                        'history': [list(h) for h in hist]}
+                        'id_attribute': idmode, 'history': [list(h) for h in hist]}
+
+            res.save()
+            rs2 = new_rs()
+            try:
+                r2 = rs2.get_resource(URI(path))
+            except Exception as e:   # noqa  (a document this library wrote itself: its references must be found again)
+                sig['clause'] = 'load-raised'
+                out.fail(dict(sig), f'{fmt} document with {nroots} root(s), id attribute {idmode}: load raised '
+                                    f'{type(e).__name__}: {e}', case())
+                continue
+            finally:
+                os.unlink(path)
+            cov['loads'] += 1
+            cov['by_format'][fmt] = cov['by_format'].get(fmt, 0) + 1
+            cov['by_id_attribute'][str(idmode)] = cov['by_id_attribute'].get(str(idmode), 0) + 1
+            if nref and not fmt.endswith('uuid'):
+                cov['documents_with_positional_refs'] += 1
+            known = _reach(r2)              # every object the history may use (also detached ones, later)
+            loaded_ids = {id(o): idtexts[o.name] for o in known if o.name in idtexts}
+            fresh = [0]
 
             def verify():
-                n, bad = _check_resolution(r2, _reach(r2), label, ids=fmt.endswith('uuid'))
+                n, bad = _check_resolution(r2, _reach(r2), label, ids=fmt.endswith('uuid'),
+                                           idtext=(lambda o: loaded_ids.get(id(o))) if idmode else None)
                 cov['resolutions'] += n
+                cov['id_attribute_resolutions'] += sum(1 for o in _reach(r2) if id(o) in loaded_ids) if not bad else 0
                 if bad:
                     sig['clause'] = bad[0]
                     out.fail(dict(sig), f'{fmt} document loaded, then {hist[-1] if len(hist) > 1 else "nothing"}: {bad[1]}', case())
@@ -389,6 +423,22 @@ def load_edit_scenarios(ctx, out):
             if len(known) != len(objs) or not verify():
                 if len(known) != len(objs):
                     cov['abandoned'] += 1     # the document did not come back whole: C08's subject
+                continue
+            # the references of the document (written as ids, uuids or positions) reach their targets
+            byname = {o.name: o for o in known}
+            wrong = None
+            for name, _, _, _, fav, links, _ in dump:
+                o = byname.get(name)
+                cov['references_compared_after_load'] += (fav is not None) + len(links)
+                if o is None or (o.fav is not None or fav is not None) and o.fav is not byname.get(fav):
+                    wrong = f'{name}.fav is {label(o.fav) if o is not None else "?"}, was written as {fav}'
+                elif len(o.links) != len(links) or any(a is not byname.get(b) for a, b in zip(o.links, links)):
+                    wrong = f'{name}.links is {[label(t) for t in o.links]}, was written as {links}'
+                if wrong:
+                    break
+            if wrong:
+                sig['clause'] = 'reference-after-load'
+                out.fail(dict(sig), f'{fmt} document, id attribute {idmode}: {wrong}', case())
                 continue
             nedits = rng.randrange(3, 10)
             ok = True
